@@ -16,6 +16,6 @@ CHECK = {'level': 'exploration',
  'assumptions': ['dropped replies are observed through the "unknown request ID" warning of onResponse (custom logger); if its text changes only the '
                  'lost-reply signal is lost', 'duplicates carry the same payload as the real reply (the layer cannot tell a forged reply with a valid ID apart)',
                  'rate limiting is disabled through WithRPCMessageCounter (belongs to C18)'],
- 'quick': [{'pkg': 'c17', 'checks': 60, 'timeout': 600, 'shrinktime': '6s'}],
- 'thorough': [{'pkg': 'c17', 'checks': 300, 'shards': 12, 'timeout': 1500, 'gomaxprocs': 4, 'shrinktime': '6s'},
-              {'pkg': 'c17', 'race': True, 'checks': 60, 'shards': 4, 'timeout': 1500, 'gomaxprocs': 4, 'shrinktime': '6s'}]}
+ 'quick': [{'pkg': 'c17', 'checks': 60, 'timeout': 1800, 'shrinktime': '6s'}],
+ 'thorough': [{'pkg': 'c17', 'checks': 800, 'shards': 12, 'timeout': 2400, 'gomaxprocs': 4, 'shrinktime': '6s'},
+              {'pkg': 'c17', 'race': True, 'checks': 200, 'shards': 4, 'timeout': 2400, 'gomaxprocs': 4, 'shrinktime': '6s'}]}
